@@ -218,7 +218,11 @@ PROPS = {
  ),
  "C05": dict(
   twin_toml=True,
-  ops={"resolve": dict(fields=["r", "val"], spec=[("r", "spec_r", ident)], laws=["law_walk", "law_fwd"])},
+  # both flavours of resolving (`resolve`, `resolve_mut`: every resolve line is also run as resolve_mut), and the
+  # position the error names ("the error names the first step that fails")
+  twin_ops={"resolve": "resolve_mut"},
+  ops={"resolve": dict(fields=["r", "val", _locate("pos")], spec=[("r", "spec_r", ident)], laws=["law_walk", "law_fwd"]),
+       "resolve_mut": dict(fields=["r", "val", _locate("pos")], spec=[("r", "spec_r", ident)], laws=["law_walk", "law_fwd"])},
   rule="all documents of a tiny grammar × all pointers of ≤2 (quick) / ≤3 (thorough) tokens over a delicate pool, + seeded random documents with path-directed / perturbed / free pointers; non-trivial: ≥2 tokens or an index/escaped token, on a container",
   exhaustive="155 tiny documents × all pointers of ≤2/≤3 tokens over {a,0,1,-,00,~0}",
   theorems="Jp.C05.resolve_eq_walk, resolve_returns_node, every_node_addressable, pointer_of_node_unique, resolve_no_panic",
